@@ -216,7 +216,7 @@ func Enum(c explore.Chooser) *prog.Program {
 	rootPath := prog.Base() + "/enums"
 	subPath := rootPath + "/sub"
 
-	loc := s.Pick("T1.loc", "analysed-file", "other-file", "sub-package", "both-packages", "module-root-package", "sub-package-constants-only-in-root")
+	loc := s.Pick("T1.loc", "analysed-file", "other-file", "sub-package", "both-packages", "module-root-package", "sub-package-constants-only-in-root", "foreign-constant-and-homonym")
 	t1 := enumType(s, "T1", "Level", "Lv", "int")
 	second := s.Pick("T2", "absent", "present", "present-in-sub", "present-in-same-named-package")
 	t2 := ""
@@ -248,6 +248,12 @@ func Enum(c explore.Chooser) *prog.Program {
 		// the type has no constant in its own package; the importing package declares one
 		sub.WriteString("type Level int\n\n")
 		a.WriteString("const DefaultLevel sub.Level = 1\n\n")
+		t1ref = "sub.Level"
+		needSub = true
+	case "foreign-constant-and-homonym":
+		// as above, and the importing package also declares a type of the same bare name (its own, without constants)
+		sub.WriteString("type Level int\n\n")
+		a.WriteString("type Level string\n\nconst DefaultLevel sub.Level = 1\n\n")
 		t1ref = "sub.Level"
 		needSub = true
 	case "module-root-package":
